@@ -230,7 +230,7 @@ partial def stepCodec (st : TmplSt) (cs : CodecSt) (toks : List String) : Option
     match cs.decTmpl with
     | some t =>
       some ({ st with tmpl := some t, subsets := cs.decoded.map (fun ns => ({ nodes := ns } : Subset)), invalid := cs.decInvalid,
-                      dataFlag := cs.decFlag },
+                      dataFlag := cs.decFlag, hasDts := true },
             { cs with decoded := #[], decTmpl := none }, s!"ok {cs.decoded.size}")
     | none => some (st, cs, "none")
   | ["dd.merge", dp, sp, nb] =>
